@@ -370,8 +370,9 @@ func refEscape(s string) string {
 
 // normEntities maps alternative spellings of the same character reference.
 func normEntities(s string) string {
-	s = strings.ReplaceAll(s, "&quot;", "&#34;")
-	s = strings.ReplaceAll(s, "&apos;", "&#39;")
+	// also inside text that was escaped more than once (&amp;quot; vs &amp;#34;)
+	s = strings.ReplaceAll(s, "quot;", "#34;")
+	s = strings.ReplaceAll(s, "apos;", "#39;")
 	return s
 }
 
